@@ -14,7 +14,7 @@ from __future__ import annotations
 
 import base64
 import threading
-from urllib.parse import parse_qsl
+from urllib.parse import parse_qsl, unquote
 
 from hypothesis import strategies as st
 
@@ -46,7 +46,20 @@ def engine_case(draw):
         "workers": draw(st.sampled_from([1, 2, 3])),
         "ignored_auth": draw(st.booleans()),
         "seed": draw(st.integers(0, 1000)),
+        # names that the output sanitiser treats as credentials: redaction is for what is printed, never for what is sent
+        "names": draw(st.sampled_from(["plain", "sensitive"])),
+        "unique_inputs": draw(st.booleans()),
     }
+
+
+NAMES = {"plain": {"X-Tenant": "X-Tenant", "ver": "ver", "sid": "sid"}, "sensitive": {"X-Tenant": "X-Api-Token", "ver": "api_key", "sid": "session"}}
+
+
+def rename(obj, names):
+    """The scenario is written with the plain names; the sensitive variant renames header / query / cookie keys."""
+    if isinstance(obj, dict):
+        return {names.get(k, k): rename(v, names) for k, v in obj.items()}
+    return obj
 
 
 def build_doc(inp) -> dict:
@@ -55,8 +68,9 @@ def build_doc(inp) -> dict:
             return []
         return [{"name": name, "in": loc, "required": inp[kind] == "required", "schema": schema}]
 
-    common = declared("declare_header", "X-Tenant", "header", {"type": "string", "enum": ["GENERATED"]}) + declared("declare_query", "ver", "query", {"type": "integer"})
-    get_params = [{"name": "id", "in": "path", "required": True, "schema": {"type": "integer"}}] + common + declared("declare_cookie", "sid", "cookie", {"type": "string"})
+    names = NAMES[inp.get("names", "plain")]
+    common = declared("declare_header", names["X-Tenant"], "header", {"type": "string", "enum": ["GENERATED"]}) + declared("declare_query", names["ver"], "query", {"type": "integer"})
+    get_params = [{"name": "id", "in": "path", "required": True, "schema": {"type": "integer"}}] + common + declared("declare_cookie", names["sid"], "cookie", {"type": "string"})
     doc = {
         "openapi": "3.0.2", "info": {"title": "t", "version": "1"},
         "paths": {
@@ -82,8 +96,11 @@ def check_engine(ctx: Ctx, inp) -> None:
 
     server = loopback.shared(script)
     checks = ["not_a_server_error"] + (["ignored_auth"] if inp["ignored_auth"] else [])
+    names = NAMES[inp.get("names", "plain")]
+    inp = dict(inp, headers=rename(inp["headers"], names), override={k: rename(v, names) for k, v in (inp["override"] or {}).items()})
+    N_TENANT, N_VER, N_SID = names["X-Tenant"], names["ver"], names["sid"]
     cfg = {"phases": inp["phases"], "modes": inp["modes"], "workers": inp["workers"], "seed": inp["seed"], "max_examples": 5, "stateful_step_count": 4, "checks": checks, "no_shrink": True,
-           "network": {"headers": inp["headers"], "auth": inp["auth"]}, "override": inp["override"] or None}
+           "network": {"headers": inp["headers"], "auth": inp["auth"]}, "override": inp["override"] or None, "unique_inputs": bool(inp.get("unique_inputs"))}
     record = engine_run.run_engine(build_doc(inp), cfg, server)
     if record.exception:
         ctx.case(classes=["engine-exception"])
@@ -101,7 +118,7 @@ def check_engine(ctx: Ctx, inp) -> None:
                 linked.add(cid)
     expected_auth = "Basic " + base64.b64encode(":".join(inp["auth"]).encode()).decode() if inp["auth"] else None
     ovr = inp["override"] or {}
-    declares = {"X-Tenant": inp["declare_header"], "ver": inp["declare_query"], "sid": inp["declare_cookie"]}
+    declares = {N_TENANT: inp["declare_header"], N_VER: inp["declare_query"], N_SID: inp["declare_cookie"]}
     n_main = 0
     phases_seen = set()
     for req in record.requests:
@@ -116,7 +133,7 @@ def check_engine(ctx: Ctx, inp) -> None:
         # configured headers: the user's value wins over a generated one of the same name
         for name, value in inp["headers"].items():
             want = value
-            if name == "X-Tenant" and "X-Tenant" in ovr.get("headers", {}) and declares["X-Tenant"]:
+            if name == N_TENANT and N_TENANT in ovr.get("headers", {}) and declares[N_TENANT]:
                 continue  # both an override and a header configured for one declared name: precedence unspecified
             if name == "Authorization" and expected_auth:
                 continue  # --header Authorization together with --auth: precedence unspecified
@@ -129,20 +146,23 @@ def check_engine(ctx: Ctx, inp) -> None:
                 ctx.disagree("engine:basic-auth-missing", f"{where}: Authorization is {got!r}, expected the configured basic credentials", input=inp, request=req.as_json())
         # overrides apply to operations that declare the parameter
         q = dict(parse_qsl(req.query, keep_blank_values=True))
-        if "ver" in ovr.get("query", {}) and declares["ver"]:
-            if q.get("ver") != "42":
-                ctx.disagree("engine:query-override-not-applied", f"{where}: query ver={q.get('ver')!r}, override 42", input=inp, request=req.as_json())
-        if "sid" in ovr.get("cookies", {}) and declares["sid"] and is_get:
-            if "sid=COOKIE-OVR" not in (req.header("Cookie") or ""):
+        if N_VER in ovr.get("query", {}) and declares[N_VER]:
+            if q.get(N_VER) != "42":
+                ctx.disagree("engine:query-override-not-applied", f"{where}: query {N_VER}={q.get(N_VER)!r}, override 42", input=inp, request=req.as_json())
+        if N_SID in ovr.get("cookies", {}) and declares[N_SID] and is_get:
+            if f"{N_SID}=COOKIE-OVR" not in (req.header("Cookie") or ""):
                 ctx.disagree("engine:cookie-override-not-applied", f"{where}: Cookie is {req.header('Cookie')!r}", input=inp, request=req.as_json())
-        if "X-Tenant" in ovr.get("headers", {}) and declares["X-Tenant"] and "X-Tenant" not in inp["headers"]:
-            if req.header("X-Tenant") != "OVR-TENANT":
-                ctx.disagree("engine:header-override-not-applied", f"{where}: X-Tenant is {req.header('X-Tenant')!r}", input=inp, request=req.as_json())
+        if N_TENANT in ovr.get("headers", {}) and declares[N_TENANT] and N_TENANT not in inp["headers"]:
+            if req.header(N_TENANT) != "OVR-TENANT":
+                ctx.disagree("engine:header-override-not-applied", f"{where}: {N_TENANT} is {req.header(N_TENANT)!r}", input=inp, request=req.as_json())
+        # whatever is printed later, the redaction marker itself must never travel
+        if "[Filtered]" in unquote(req.target) or any("[Filtered]" in v for _, v in req.headers):
+            ctx.disagree("engine:redaction-marker-sent-on-the-wire", f"{where}: the request carries the output-sanitisation marker: {req.target} {[(k, v) for k, v in req.headers if '[Filtered]' in v]}", input=inp, request=req.as_json())
         if "id" in ovr.get("path_parameters", {}) and is_get and req.method == "GET":
             if req.path != "/users/777":
                 ctx.disagree("engine:path-override-not-applied", f"{where}: path override id=777 not applied", input=inp, request=req.as_json())
     nontrivial = n_main > 0 and (any(declares.values()) or phases_seen & {"COVERAGE", "STATEFUL_TESTING"})
-    ctx.case(nontrivial=inp if nontrivial else None, classes=[f"phase={p}" for p in sorted(phases_seen)] + [f"workers={inp['workers']}", f"ignored_auth={inp['ignored_auth']}", f"secured={inp['secured']}", "linked-requests" if linked else "no-linked-requests", "derived-probes" if derived else "no-derived-probes"], sample={"input": inp, "requests": n_main, "derived": len(derived)})
+    ctx.case(nontrivial=inp if nontrivial else None, classes=[f"phase={p}" for p in sorted(phases_seen)] + [f"names={inp.get('names', 'plain')}", f"unique_inputs={bool(inp.get('unique_inputs'))}", f"workers={inp['workers']}", f"ignored_auth={inp['ignored_auth']}", f"secured={inp['secured']}", "linked-requests" if linked else "no-linked-requests", "derived-probes" if derived else "no-derived-probes"], sample={"input": inp, "requests": n_main, "derived": len(derived)})
 
 
 # ---- owned schedule for the auth cache -----------------------------------------------------------------------
